@@ -406,9 +406,9 @@ def rules_final(run):
 
 def check(run):
     from . import c06
-    c06.rules_save(run, 'C02', ('.8a', '.8b', '.8c'))
-    rules_owner(run)
-    rules_pairing(run)
-    rules_stabilization(run)
-    rules_create_steps(run)
-    rules_final(run)
+    run.guard(c06.rules_save, run, 'C02', ('.8a', '.8b', '.8c'))
+    run.guard(rules_owner, run)
+    run.guard(rules_pairing, run)
+    run.guard(rules_stabilization, run)
+    run.guard(rules_create_steps, run)
+    run.guard(rules_final, run)
